@@ -5,3 +5,8 @@ package PKGNAME
 func VerifC13Sequence() {
 	verifVersionsRun(verifParam("steps", 2), true, "C02-latest-promotion-by-created-at", "C13-last-modified-bumped")
 }
+
+// VerifC13AfterEnabledPut: the same from the history  enable . put(v1).
+func VerifC13AfterEnabledPut() {
+	verifVersionsRunFrom([]int{3, 0}, verifParam("steps", 2), true, "C02-latest-promotion-by-created-at", "C13-last-modified-bumped")
+}
